@@ -390,7 +390,32 @@ class Source(object):
         need = min(depth * 12 + 500, 60000)
         if need > sys.getrecursionlimit():
             sys.setrecursionlimit(need)
+        self._fix_columns(tree)
         return tree
+
+    def _fix_columns(self, tree):
+        # type: (AST) -> None
+        # the parser counts columns in UTF-8 bytes, cursor positions and
+        # source lines count characters: make them agree on lines with
+        # non-ASCII text
+        lines = self.lines
+        wide = {}  # type: dict[int, bytes]
+        for i, line in enumerate(lines):
+            if isinstance(line, type(u'')):
+                data = line.encode('utf-8', 'replace')
+                if len(data) != len(line):
+                    wide[i + 1] = data
+        if not wide:
+            return
+        todo = [tree]
+        while todo:
+            node = todo.pop()
+            todo.extend(iter_child_nodes(node))
+            for la, ca in (('lineno', 'col_offset'), ('end_lineno', 'end_col_offset')):
+                data = wide.get(getattr(node, la, None))  # type: ignore[arg-type]
+                col = getattr(node, ca, None)
+                if data is not None and col:
+                    setattr(node, ca, len(data[:col].decode('utf-8', 'replace')))
 
     @cached_property
     def lines(self):
